@@ -147,6 +147,8 @@ def coc_ledger(boundary_log, dev: int, r, tag: str = ''):
                         if ch:
                             ch.credits += n
                             r.ev('ledger_credit_grants')
+                            if n >= 32768:
+                                r.ev('ledger_credit_grants_ge_32768')
                     elif code == CODE_DISC_RSP and len(data) >= 4:
                         dcid, scid = struct.unpack_from('<HH', data, 0)
                         ch = tx.get((handle, dcid))
@@ -169,6 +171,8 @@ def coc_ledger(boundary_log, dev: int, r, tag: str = ''):
                 ch.zero_credit_moments += 1
             ch.min_credits_seen = min(ch.min_credits_seen, ch.credits)
             r.ev('oracle_evals')
+            if len(payload) >= 32768:
+                r.ev('ledger_frames_ge_32768')
             if len(payload) > ch.peer_mps:
                 r.bad(f'coc/mps-exceeded/{ch.how}{tag}',
                       f'dev{dev} K-frame of {len(payload)} bytes > peer MPS {ch.peer_mps} on dcid {cid:#x}')
@@ -179,6 +183,8 @@ def coc_ledger(boundary_log, dev: int, r, tag: str = ''):
                 sdu_len = struct.unpack_from('<H', payload, 0)[0]
                 ch.sdus += 1
                 r.ev('oracle_evals')
+                if sdu_len >= 32768:
+                    r.ev('ledger_sdus_ge_32768')
                 if sdu_len > ch.peer_mtu:
                     r.bad(f'coc/mtu-exceeded/{ch.how}{tag}',
                           f'dev{dev} SDU of {sdu_len} bytes > peer MTU {ch.peer_mtu} on dcid {cid:#x}')
